@@ -154,6 +154,16 @@ static Out run_history(int hist, const std::string& text, const std::string& val
       }
       break;
     }
+    case 7: {  // valid text, ParseSchema of the valid text into it, then the input (twice): buffers of three kinds of parse in one document
+      DocT d;
+      parse_into(d, valid);
+      d.ParseSchema(valid);
+      if (d.HasParseError()) throw Failure{"ParseSchema of a valid text into its own parse failed"};
+      first = parse_into(d, text);
+      Out second = parse_into(d, text);
+      if (!(first == second)) throw Failure{"second parse of the same input differs after a ParseSchema: " + first.show() + " vs " + second.show()};
+      break;
+    }
     default: {  // input, swap with another parsed document
       DocT d;
       first = parse_into(d, text);
@@ -316,7 +326,7 @@ static void property(Src& s, Case& c) {
     }
   }
   int kind = (int)s.weighted({3, 3, 3, 1, 2});
-  int hist = (int)s.index(7);
+  int hist = (int)s.index(8);
   if (kind == 4) {
     static const size_t sizes[] = {64, 128, 256, 512, 1024, 4096};
     g_ub_size = s.coin(1, 2) ? sizes[s.index(6)] : (size_t)s.pick(64, 2048);
@@ -346,7 +356,7 @@ static void direct(const Fields& f, Case& c) {
     unsigned sel = (unsigned char)raw[0];
     static const std::string valid = "[1,{\"a\":\"b\"},\"x\"]";
     static const MV vmv = refjson::parse(valid).value;
-    run_all(raw.substr(1), valid, vmv, (int)(sel % 3), (int)((sel / 4) % 7), c);
+    run_all(raw.substr(1), valid, vmv, (int)(sel % 3), (int)((sel / 4) % 8), c);
     return;
   }
   const std::string* t = field(f, "text");
@@ -360,7 +370,7 @@ static void direct(const Fields& f, Case& c) {
   g_ub_off = field(f, "uboff") ? (size_t)atol(field(f, "uboff")->c_str()) % 8 : 3;
   if (g_ub_size < 64) g_ub_size = 64;
   for (int k = 0; k < 5; k++)
-    for (int h = 0; h < 7; h++)
+    for (int h = 0; h < 8; h++)
       if ((kind < 0 || kind == k) && (hist < 0 || hist == h)) run_all(*t, valid, rv.value, k, h, c);
 }
 
